@@ -10,16 +10,17 @@ import subprocess
 import sys
 
 HINTS = [
-    "optional or keyword arguments given NON-default values (explicit tolerances other than the default, explicit nodes, "
-    "nnodes, method names, explicit degree) - the path taken only when the caller passes the argument",
-    "vectorised or unusual argument containers: numpy arrays / tuples / nested sequences of parameters, 0-d arrays, "
-    "negative indices and slices, generators, a single-element sequence versus a scalar",
-    "the caller's own containers: a list or numpy array passed in by the caller that is retained, shared between two "
-    "results, or modified, so that the breakage shows only when the caller touches or re-uses it afterwards",
-    "rational-only behaviour: curves with weights (equal weights, weights set and later removed with None, weights far from "
-    "1, negative-free but very uneven weights), where the polynomial path stays correct",
-    "degenerate or extreme sizes: degree 0, a single span, npts == degree + 1, every interior knot at full multiplicity, "
-    "an operation repeated many times on the same object, or an empty request (no nodes / zero times)",
+    # ninth wave (the lists of earlier waves are in DESIGN.md section 7)
+    "derived attributes and queries read AFTER an operation (knots, npts, limits, degree, span, mult, str(), len(), "
+    "iteration, indexing, copy()) that go stale or disagree with the element list only after a particular operation",
+    "the kind of failure for one specific class of invalid argument: the wrong exception type, an exception raised only after "
+    "part of the state was changed, or an invalid request that is silently accepted - for ONE narrow class of arguments",
+    "a comparison against a tolerance or a boundary that is off exactly AT the boundary (< versus <=, a knot equal to a "
+    "node, a multiplicity equal to degree or degree+1, a parameter equal to an interior knot or to umax)",
+    "an asymmetry between the two operands of a binary operation or between two orders of the same operations "
+    "(A op B versus B op A, insert-then-elevate versus elevate-then-insert, left piece versus right piece)",
+    "objects obtained by copy / deepcopy / slicing / iteration of other objects (a copied KnotVector or Curve, a piece "
+    "returned by split, a result of fraction()) that are subtly incomplete or still tied to their source",
 ]
 
 root = sys.argv[1]
